@@ -545,7 +545,12 @@ func (ndb *nodeDB) deleteVersion(version int64, cache *rootkeyCache) error {
 
 // deleteLegacyNodes deletes all legacy nodes with the given version from disk.
 // NOTE: This is only used for DeleteVersionsFrom.
-func (ndb *nodeDB) deleteLegacyNodes(version int64, nk []byte) error {
+func (ndb *nodeDB) deleteLegacyNodes(version int64, nk []byte, deleted map[string]struct{}) error {
+	if _, ok := deleted[string(nk)]; ok {
+		// shared with a version handled before; its deletion may already have been flushed
+		return nil
+	}
+	deleted[string(nk)] = struct{}{}
 	node, err := ndb.GetNode(nk)
 	if err != nil {
 		return err
@@ -555,12 +560,12 @@ func (ndb *nodeDB) deleteLegacyNodes(version int64, nk []byte) error {
 		return nil
 	}
 	if node.leftNodeKey != nil {
-		if err := ndb.deleteLegacyNodes(version, node.leftNodeKey); err != nil {
+		if err := ndb.deleteLegacyNodes(version, node.leftNodeKey, deleted); err != nil {
 			return err
 		}
 	}
 	if node.rightNodeKey != nil {
-		if err := ndb.deleteLegacyNodes(version, node.rightNodeKey); err != nil {
+		if err := ndb.deleteLegacyNodes(version, node.rightNodeKey, deleted); err != nil {
 			return err
 		}
 	}
@@ -626,12 +631,15 @@ func (ndb *nodeDB) DeleteVersionsFrom(fromVersion int64) error {
 	}
 	dumpFromVersion := fromVersion
 	if legacyLatestVersion >= fromVersion {
+		deleted := make(map[string]struct{})
 		if err := ndb.traverseRange(legacyRootKeyFormat.Key(fromVersion), legacyRootKeyFormat.Key(legacyLatestVersion+1), func(k, v []byte) error {
 			var version int64
 			legacyRootKeyFormat.Scan(k, &version)
-			// delete the legacy nodes
-			if err := ndb.deleteLegacyNodes(version, v); err != nil {
-				return err
+			// delete the legacy nodes (an empty root value is the empty tree: nothing to delete)
+			if len(v) > 0 {
+				if err := ndb.deleteLegacyNodes(version, v, deleted); err != nil {
+					return err
+				}
 			}
 			// it will skip the orphans because orphans will be removed at once in `deleteLegacyVersions`
 			// delete the legacy root
